@@ -110,7 +110,8 @@ Definition max_key (t : Z) (rs : list row) : Z :=
   fold_left (fun m r => if r_tbl r =? t then Z.max m (r_key r) else m) rs 0.
 
 (* ---------------------------------------------------------------- events and crash/recovery *)
-Inductive event := Write (w : write) | Commit | Rollback | Ack.
+Inductive event := Write (w : write) | Commit | Rollback | Ack
+  | CommitFail.     (* COMMIT refused by the database (e.g. 'database is locked'): nothing becomes durable, the changes stay pending *)
 
 Record mach := mkMach { dur : store; pend : list write }.
 
@@ -120,6 +121,7 @@ Definition step (m : mach) (e : event) : mach :=
   | Commit   => mkMach (apply_writes (pend m) (dur m)) []
   | Rollback => mkMach (dur m) []
   | Ack      => m
+  | CommitFail => m
   end.
 
 Definition run (tr : list event) (m : mach) : mach := fold_left step tr m.
@@ -222,6 +224,29 @@ Definition trace_of (o : op) (s : store) : list event :=
   | Some ws => map Write ws ++ [Commit; Ack]
   | None => [Rollback; Ack]
   end.
+
+(* the same handler when the database refuses its COMMIT: the exception leaves the handler and the batch item is answered
+   with a failure.  AS THE CODE IS, nothing rolls the DBAPI transaction back (SQLAlchemy marks its root transaction closed
+   after the failed COMMIT, Session.close() and the pool's reset-on-return then skip the ROLLBACK): the changes stay
+   PENDING on the pooled connection until the process dies or the next request ends its transaction *)
+Definition trace_of_failed_commit (o : op) (s : store) : list event :=
+  match writes_of o s with
+  | Some [] => [Commit; Ack]                  (* nothing to write: the COMMIT needs no write lock and cannot be refused *)
+  | Some ws => map Write ws ++ [CommitFail; Ack]
+  | None => [Rollback; Ack]
+  end.
+
+(* did the operation answer SUCCESS in that run? *)
+Definition failed_commit_acks_success (o : op) (s : store) : bool :=
+  match writes_of o s with Some [] => true | _ => false end.
+
+(* the durability settings of the connection that `recover` presupposes (SQLite defaults):
+   journal_mode DELETE/TRUNCATE/PERSIST (an on-disk rollback journal) or WAL, synchronous >= NORMAL... FULL by default,
+   locking_mode NORMAL, driver not in autocommit mode (one transaction per operation) *)
+Definition J_delete := 0.  Definition J_truncate := 1.  Definition J_persist := 2.  Definition J_wal := 3.
+Definition J_memory := 4.  Definition J_off := 5.
+Definition settings_ok (journal synchronous locking autocommit : Z) : bool :=
+  (journal <=? J_wal) && (0 <=? journal) && (2 <=? synchronous) && (locking =? 0) && (autocommit =? 0).
 
 Definition post (o : op) (s : store) : store :=
   match writes_of o s with
